@@ -224,6 +224,7 @@ def program(case, rng, rg_outputs=None):
 
 
 # ------------------------------------------------------------------------------------------- nn ops
+WIDE_LEVELS = False      # set by the float64 property modules (C02, C06): batch-norm inputs riding on a level of 2^26; meaningless in float32
 OPS_NN = ['relu', 'leaky_relu', 'selu', 'tanh', 'sigmoid', 'softmax', 'log_softmax', 'mse_loss', 'nll_loss', 'binary_cross_entropy',
           'binary_cross_entropy_with_logits', 'cross_entropy', 'linear', 'conv1d', 'conv2d', 'max_pool1d', 'avg_pool1d', 'max_pool2d',
           'avg_pool2d', 'unfold', 'fold', 'batch_norm']
@@ -350,7 +351,12 @@ def gen_nn(rng, op, malformed=False):
         sh = (n, c) + rest
         hw, hb, tr, track = rng.chance(.6), rng.chance(.6), rng.chance(.5), rng.chance(.6)
         if malformed: sh, tr = (1, c), True
-        leaves = [L(sh, rg=rng.chance(.85))] + ([L((c,), rg=rng.chance(.85))] if hw else []) + ([L((c,), rg=rng.chance(.85))] if hb else [])
+        xdata = None
+        if WIDE_LEVELS and rng.chance(.2) and not malformed:
+            # channels whose level dwarfs their spread (2^26 + k/8, exact in binary64): a variance obtained by cancellation loses them
+            off = rng.pick([2.0 ** 26, -2.0 ** 26, 2.0 ** 24])
+            xdata = [off + rng.dyadic(-4, 4) for _ in range(int(np.prod(sh)))]
+        leaves = [L(sh, xdata, rg=rng.chance(.85))] + ([L((c,), rg=rng.chance(.85))] if hw else []) + ([L((c,), rg=rng.chance(.85))] if hb else [])
         rm = show_floats([rng.dyadic(-1, 1) for _ in range(c)]) if track else '-'
         rv = show_floats([rng.randint(2, 24) / 8 for _ in range(c)]) if track else '-'
         return leaves, [int(hw), int(hb), int(tr), fbits(rng.pick([1e-5, 1e-3, 0.1])), rm, rv]
